@@ -206,6 +206,10 @@ fn eval_inner(op: &Op, pre: Option<(&Shared, &[(String, Ctx)])>, chans: Option<&
             }
             Err(m) => m,
         },
+        Op::AdvanceClock { ms } => {
+            oh_verif_rt::time::advance(std::time::Duration::from_millis(*ms));
+            "ok".into()
+        }
         Op::Churn { kind, seed, n, t } => {
             let mut kept: Vec<(String, AnyOh)> = Vec::new();
             let mut f = simcore::Fp::default();
